@@ -5,6 +5,7 @@ from . import hist
 
 class C04(HistProp):
     id = 'C04'
+    also_release = True
     module = 'Cbor.Props.C04'
     extra_modules = ['Cbor.Lemmas.Acyclic']
     theorems = ['Props.C04.C04_nothing_left\'', 'Props.C04.C04_acyclic_run', 'Props.C04.C04_acyclic_run_from_init', 'Heap.acyclic_step', 'Props.C04.C04_step', 'Props.C04.C04_run', 'Props.C04.C04_run_from_init', 'Props.C04.C04_no_dangling', 'Props.C04.C04_all_released', 'Props.C04.C04_pos_run', 'Props.C04.C04_nothing_left',
